@@ -607,3 +607,92 @@ Section LineDict.
   Qed.
 
 End LineDict.
+
+(* ---- the module body: what holds of every program that loads, by construction ------------------- *)
+Definition species_built_ok (o : species) : Prop :=
+  match o with SI i => i_Z i = e_Z (i_element i) | SE _ => True end.
+Definition env_ok (en : env) : Prop := forall a o, In (a, o) en -> species_built_ok o.
+
+Lemma env_set_in en k v : forall a o, In (a, o) (env_set en k v) -> In (a, o) en \/ o = v.
+Proof.
+  induction en as [|[k0 x] t IH]; simpl; intros a o H.
+  - destruct H as [H|[]]. inversion H; auto.
+  - destruct (String.eqb k0 k).
+    + destruct H as [H|H]; [inversion H; auto | left; right; exact H].
+    + destruct H as [H|H]; [left; left; exact H|]. destruct (IH a o H); auto.
+Qed.
+
+Lemma env_set_ok en k v : env_ok en -> species_built_ok v -> env_ok (env_set en k v).
+Proof. intros He Hv a o H. destruct (env_set_in en k v a o H) as [H1|H1]; [eapply He; eauto | subst; exact Hv]. Qed.
+
+Lemma exec_ok prog : forall en en', env_ok en -> exec prog en = Some en' -> env_ok en'.
+Proof.
+  induction prog as [|s t IH]; simpl; intros en en' He H.
+  - inversion H; subst; exact He.
+  - destruct s as [a n s z w | a n s ea m w].
+    + eapply IH; [|exact H]. apply env_set_ok; [exact He | exact I].
+    + destruct (env_get en ea) as [[el|j]|]; try discriminate.
+      eapply IH; [|exact H]. apply env_set_ok; [exact He | reflexivity].
+Qed.
+
+Lemma insert_attr_in x l : forall y, In y (insert_attr x l) -> y = x \/ In y l.
+Proof.
+  induction l as [|z t IH]; simpl; intros y H.
+  - destruct H as [H|[]]; auto.
+  - destruct (String.leb (fst x) (fst z)).
+    + destruct H as [H|H]; auto.
+    + destruct H as [H|H]; [right; left; exact H|]. destruct (IH y H); auto.
+Qed.
+
+Lemma dir_sorted_in en : forall y, In y (dir_sorted en) -> In y en.
+Proof.
+  unfold dir_sorted. induction en as [|x t IH]; simpl; intros y H; [exact H|].
+  destruct (insert_attr_in _ _ _ H); subst; auto.
+Qed.
+
+Lemma isotopes_of_env en i : In i (isotopes (registry_of_env en)) -> exists a, In (a, SI i) en.
+Proof.
+  unfold registry_of_env. cbn [isotopes]. rewrite in_flat_map. intros [[a o] [H1 H2]]. cbn [snd] in H2.
+  destruct o as [e|j]; [destruct H2|]. destruct H2 as [H2|[]]. subst j.
+  exists a. apply dir_sorted_in; exact H1.
+Qed.
+
+(* for EVERY program that loads (no wf needed): an isotope carries its element's atomic number *)
+Lemma isotope_number_by_construction prog r : load prog = Some r ->
+  forall i, In i (isotopes r) -> i_Z i = e_Z (i_element i).
+Proof.
+  unfold load. destruct (exec prog []) as [en|] eqn:E; [|discriminate]. cbn [option_map].
+  intros H i Hi. inversion H; subst r. destruct (isotopes_of_env en i Hi) as [a Ha].
+  assert (Hok : env_ok en) by (eapply exec_ok; [|exact E]; intros ? ? []).
+  exact (Hok a (SI i) Ha).
+Qed.
+
+(* ---- the key-disjointness demanded by wf is necessary, not only sufficient ----------------------- *)
+(* if two objects with different names write the same key, the lookup of that key cannot return both:
+   for one of them an identifier does not lead back to the object *)
+Lemma shared_key_breaks_lookup {A} (nm : A -> string) keys (l : list A) a b k :
+  nm a <> nm b -> idx_get (build_index keys l) k = Some a -> idx_get (build_index keys l) k = Some b -> False.
+Proof. intros Hn Ha Hb. rewrite Ha in Hb. inversion Hb. subst. apply Hn; reflexivity. Qed.
+
+Lemma pairwise_disjoint_complete {A} (nm : A -> string) keys (l : list A) :
+  (forall a b k, In a l -> In b l -> In k (keys a) -> In k (keys b) -> nm a = nm b) ->
+  pairwise_disjoint nm keys l = true.
+Proof.
+  intros H. unfold pairwise_disjoint. apply forallb_forall. intros [na ka] Ha.
+  apply forallb_forall. intros [nb kb] Hb. cbn [fst snd].
+  apply in_map_iff in Ha. destruct Ha as [a [Ea Ha]]. inversion Ea; subst na ka.
+  apply in_map_iff in Hb. destruct Hb as [b [Eb Hb]]. inversion Eb; subst nb kb.
+  destruct (String.eqb_spec (nm a) (nm b)) as [E|E]; [reflexivity|]. cbn [orb].
+  unfold disjointb. apply forallb_forall. intros k Hk. apply negb_true_iff.
+  destruct (existsb (String.eqb k) (keys b)) eqn:X; [|reflexivity].
+  apply existsb_eqb_in in X. exfalso; apply E. eapply H; eauto.
+Qed.
+
+(* if every key of every object leads back to that object, then the keys are pairwise disjoint *)
+Lemma lookups_imply_disjoint {A} (nm : A -> string) keys (l : list A) :
+  (forall o k, In o l -> In k (keys o) -> idx_get (build_index keys l) k = Some o) ->
+  pairwise_disjoint nm keys l = true.
+Proof.
+  intros H. apply pairwise_disjoint_complete. intros a b k Ha Hb Ka Kb.
+  pose proof (H a k Ha Ka) as E1. pose proof (H b k Hb Kb) as E2. rewrite E1 in E2. inversion E2; reflexivity.
+Qed.
